@@ -238,9 +238,24 @@ def _threaded(rng, c):
     return [("on %d %s" % (rng.randrange(3), l)) if l.split()[0][0] in "bo" or l.split()[0] in ("notify", "poll") else l for l in c]
 
 
+_JUMPS = [2 ** 31 - 1, 2 ** 31, 2 ** 31 + 1, 2 ** 32 - 1, 2 ** 32, 2 ** 32 + 3, 3 * 2 ** 31, 2 ** 33, 2 ** 40]
+
+
+def _jumps(rng, c):
+    """somebody else in the process draws 2^31 .. 2^40 stamps between two operations of the history: the order of
+    stamps is an order of 64-bit values, not of their low 32 bits"""
+    if not c or c[0].split()[0] == "mt":
+        return c
+    out = list(c)
+    for _ in range(rng.pick([1, 1, 2, 3])):
+        out.insert(rng.randrange(1, len(out) + 1), "tjump %d" % rng.pick(_JUMPS))
+    return out
+
+
 def _gen_all(rng, tier, h):
     quick = tier == "quick"
     cases = _gen_all0(rng, tier, h)
+    cases = [(_jumps(rng, c) if rng.chance(0.3) else c) for c in cases]
     return [(_threaded(rng, c) if rng.chance(0.3) else c) for c in cases]
 
 
